@@ -83,7 +83,12 @@ def p1_case(part, row, case):
         part.skip(why)
         return
     rotated = case.get("frame") == "rotated"
-    c = xtal.make_crystal(row["number"], row["choice"], cell, asym["symbols"], asym["frac"])
+    occ = None
+    if case.get("occ"):
+        # split-site style disorder: the atoms of the last molecule of the asymmetric unit are partially occupied
+        mi = np.asarray(asym["molidx"])
+        occ = np.where(mi == mi.max(), float(case["occ"]), 1.0)
+    c = xtal.make_crystal(row["number"], row["choice"], cell, asym["symbols"], asym["frac"], occupation=occ)
     if rotated:
         from chmpy.crystal import Crystal, UnitCell
 
@@ -96,7 +101,7 @@ def p1_case(part, row, case):
             part.ev()
             part.tr()
             cc = dict(case, sizes=[list(size)], route=route)
-            tag = "%s:%s" % (route, "rotated-frame" if rotated else "standard-frame")
+            tag = "%s:%s%s" % (route, "rotated-frame" if rotated else "standard-frame", ":partial-occupancy" if occ is not None else "")
             try:
                 cfresh = xtal.fresh_from_state(xtal.public_state(c))
                 p = cfresh.as_P1_supercell(size) if route == "as_P1_supercell" else cfresh.to_translational_symmetry(supercell=size)
@@ -211,6 +216,11 @@ def p1_worker(part, job, seed, thorough):
             p1_case(part, row, case)
             if mode == "all_sizes":
                 break
+    # deviation: partially occupied sites (the descriptions must still agree on the density)
+    for zk, o in (("2diff", 0.5), ("1", 0.25)):
+        case = {"number": row["number"], "choice": row["choice"], "zkind": zk, "centre": [0.137, 0.289, 0.611], "orient": 1, "seed": seed,
+                "sizes": [[1, 1, 1], [2, 1, 3]], "occ": o}
+        p1_case(part, row, case)
     # deviation: the same crystal given by rotated lattice vectors
     case = {"number": row["number"], "choice": row["choice"], "zkind": "1", "centre": [0.137, 0.289, 0.611], "orient": 1, "seed": seed,
             "sizes": [[1, 1, 1], [2, 1, 1]], "frame": "rotated"}
